@@ -78,6 +78,17 @@ theorem ismags_mapNodes_sound {pick : Map → Cands → List Int → Int} (hpick
   obtain ⟨h1, h2, h3, h4⟩ := mapNodes_sound hpick g sg C tbm fuel sgn cands mapping hinv hok hsgn hnd m h
   exact ⟨h3, h2, h4, mapOK_indIso h2 h1, mapOK_enforced h2 h1⟩
 
+/-- **The rule for the next node.**  `legalChoice c nodes x` = "`x` is a possible result of the code's
+`min(nodes, key=lambda n: min(candidates[n], key=len))` for some iteration order of the sets involved"
+(a minimal element for the proper-subset order of the frozenset keys).  Every legal choice is a member
+of `nodes` (so every theorem with hypothesis `PickOK` covers the run replayed with the choices recorded
+from the real code, which the driver accepts only when legal), and the model's deterministic rule
+`pickMin` is legal. -/
+theorem ismags_min_rule (c : Cands) (nodes : List Int) :
+    (∀ x, legalChoice c nodes x = true → x ∈ nodes)
+    ∧ (nodes ≠ [] → legalChoice c nodes (pickMin c nodes) = true) :=
+  ⟨fun _ h => legalChoice_mem h, pickMin_legal c nodes⟩
+
 /-! ### M3: completeness, every solution exactly once -/
 
 /-- **Every induced subgraph isomorphism that meets the constraints is yielded** by the transcribed
